@@ -17,10 +17,20 @@ package c26
 // delivery is never a violation here (inconclusive); only positive observations decide:
 // a delivery at a peer that must not get it, a second delivery, a changed payload, a response
 // with other content.
+//
+// One exception, for texts addressed to a named player (Message, MessageRaw, KickPlayer): the
+// responder acts on the goroutine that reads the requesting connection, before it answers the
+// marker query that follows, and writes to the player's client connection synchronously. When
+// the marker has been answered AND a keep-alive sent afterwards by the player's backend has
+// gone through that client connection and come back (the client logged it behind everything
+// written before), a text that is not in the client's log was not written: the named player
+// was not acted on. The requests carry texts of ordinary size and texts at and around the
+// writeUTF length boundaries (32767 / 32768 / 65535 bytes).
 
 import (
 	"bytes"
 	"fmt"
+	"math/rand"
 	"net"
 	"strings"
 	"time"
@@ -223,7 +233,47 @@ func adapterScenario(r *lib.Run, pv proto.Protocol, salt int, nReq, nPos, nInc *
 		{label: "GetPlayerServer nobody", data: utf("GetPlayerServer", "nobody")},
 		{label: "ServerIP nowhere", data: utf("ServerIP", "nowhere")},
 	}
+	// texts at and around the writeUTF length boundaries; which request gets which length is
+	// drawn from the scenario's salt
+	lrng := rand.New(rand.NewSource(int64(salt)))
+	legacyOf := func(token string, n int) string { return padTo(token+"-", n, 'm') }
+	jsonOf := func(token string, n int) string {
+		pre, post := `{"text":"`+token+`-`, `"}`
+		return padTo(pre, n-len(post), 'j') + post
+	}
+	lenLabel := func(n int) string { return fmt.Sprintf("<%d-byte text>", n) }
+	nMsg, nRaw, nKick, nKickRaw := longLen(lrng), longLen(lrng), longLen(lrng), longLen(lrng)
+	boundaryMsg, boundaryRaw := 32767, 32768
+	if pv >= 765 {
+		// 1.20.3+ clients get chat components and kick reasons as binary NBT. Gate's chat codec
+		// cannot encode a component whose text is 32768 bytes or longer that way (the SNBT->NBT
+		// step of the go-mc nbt package reads the string length as a SIGNED short: "string length
+		// less than 0"), the write fails and the player's connection is closed. That is a limit
+		// of the chat codec, not of the BungeeCord responder (which has handed the text over
+		// intact, as layer 1 shows for every length), so towards these clients the texts stay
+		// at the last lengths that can be delivered. Reported to the coordinator.
+		capLen := func(n int) int {
+			if n >= 32768 {
+				return 32767 - n%2
+			}
+			return n
+		}
+		nMsg, nRaw, nKick, nKickRaw = capLen(nMsg), capLen(nRaw), capLen(nKick), capLen(nKickRaw)
+		boundaryRaw = 32767
+	}
+	kickReason, kickLabel := tok("kick"), "KickPlayer Carol"
+	if salt%2 == 0 {
+		kickReason, kickLabel = legacyOf(tok("kick"), nKick), "KickPlayer Carol "+lenLabel(nKick)
+	}
+	kickRawReason, kickRawLabel := `{"text":"`+tok("kickraw")+`"}`, "KickPlayerRaw bob"
+	if salt%2 == 1 {
+		kickRawReason, kickRawLabel = jsonOf(tok("kickraw"), nKickRaw), "KickPlayerRaw bob "+lenLabel(nKickRaw)
+	}
 	effects := []request{
+		{label: "Message bob " + lenLabel(nMsg), data: utf("Message", "bob", legacyOf(tok("msgL"), nMsg)), token: tok("msgL")},
+		{label: "MessageRaw bob " + lenLabel(nRaw), data: utf("MessageRaw", "bob", jsonOf(tok("rawL"), nRaw)), token: tok("rawL")},
+		{label: "Message Alice " + lenLabel(boundaryMsg), data: utf("Message", "Alice", legacyOf(tok("msgB"), boundaryMsg)), token: tok("msgB")},
+		{label: "MessageRaw Alice " + lenLabel(boundaryRaw), data: utf("MessageRaw", "Alice", jsonOf(tok("rawB"), boundaryRaw)), token: tok("rawB")},
 		{label: "Forward games", data: fwd(utf("Forward", "games"), "MyChannel", tok("fwd1")), token: tok("fwd1")},
 		{label: "Forward ALL", data: fwd(utf("Forward", "ALL"), "MyChannel", tok("fwdall")), token: tok("fwdall")},
 		{label: "Forward nowhere", data: fwd(utf("Forward", "nowhere"), "MyChannel", tok("fwdx")), token: tok("fwdx")},
@@ -232,7 +282,7 @@ func adapterScenario(r *lib.Run, pv proto.Protocol, salt int, nReq, nPos, nInc *
 		{label: "Message bob", data: utf("Message", "bob", tok("msg")), token: tok("msg")},
 		{label: "Message nobody", data: utf("Message", "nobody", tok("msgx")), token: tok("msgx")},
 		{label: "MessageRaw Carol", data: utf("MessageRaw", "Carol", `{"text":"`+tok("raw")+`"}`), token: tok("raw")},
-		{label: "KickPlayer Carol", data: utf("KickPlayer", "Carol", tok("kick")), token: tok("kick")},
+		{label: kickLabel, data: utf("KickPlayer", "Carol", kickReason), token: tok("kick")},
 	}
 
 	send := func(rq request) bool {
@@ -262,14 +312,22 @@ func adapterScenario(r *lib.Run, pv proto.Protocol, salt int, nReq, nPos, nInc *
 		r.Inconclusive(fmt.Sprintf("adapter layer (protocol %d): the marker response never came back: %v", pv, err))
 		return false
 	}
-	// flush every client/backend path that is still up, then let asynchronous deliveries land
+	// flush every client/backend path that is still up, then let asynchronous deliveries land.
+	// flushed[player]: a keep-alive sent by the player's backend AFTER the marker was answered went
+	// through the client and came back (Carol is expected to have been kicked: for her the round
+	// trip succeeds only if she was not).
+	flushed := map[string]bool{}
 	for k, p := range players {
-		if p.name == "Carol" {
-			continue // kicked
-		}
 		id := int64(777000 + k)
-		_ = p.bc.Send(&packet.KeepAlive{RandomID: id})
-		_, _ = p.bc.WaitFor(func(rec *e2e.Rec) bool { ka, ok := rec.Packet.(*packet.KeepAlive); return ok && ka.RandomID == id }, 5*time.Second)
+		wait := 5 * time.Second
+		if p.name == "Carol" {
+			wait = 300 * time.Millisecond
+		}
+		if p.bc.Send(&packet.KeepAlive{RandomID: id}) != nil {
+			continue
+		}
+		_, err := p.bc.WaitFor(func(rec *e2e.Rec) bool { ka, ok := rec.Packet.(*packet.KeepAlive); return ok && ka.RandomID == id }, wait)
+		flushed[p.name] = err == nil
 	}
 	time.Sleep(150 * time.Millisecond)
 
@@ -454,9 +512,32 @@ func adapterScenario(r *lib.Run, pv proto.Protocol, salt int, nReq, nPos, nInc *
 					viol("delivered-to-wrong-player", "the text arrived at "+hh.Peer)
 				}
 			}
+			longClass := ""
+			if exp.MaxUTF >= 32768 {
+				longClass = ":utf-field-of-32768-bytes-or-more"
+				r.Count("adapter_text_requests_with_a_string_of_32768_bytes_or_more:"+sub, 1)
+				if len(hits) > 0 {
+					r.Count("adapter_long_texts_observed_at_the_named_players_client", 1)
+				}
+			}
 			if len(want) > 0 && len(hits) == 0 {
-				*nInc++
-				r.Inconclusive(fmt.Sprintf("adapter layer (protocol %d): %s: expected text not observed at the client", pv, rq.label))
+				// see the file comment: sound when the named player's client path was flushed behind the marker
+				allFlushed := true
+				for who := range want {
+					if !flushed[who] {
+						allFlushed = false
+					}
+				}
+				if allFlushed {
+					clause := "named-player-not-messaged"
+					if sub == "KickPlayer" {
+						clause = "named-player-not-kicked"
+					}
+					r.Violation("adapter:"+sub+":"+clause+longClass, rq.label+": the marker query behind the request was answered and a later keep-alive went through the named player's client connection, but the text never arrived there", wit(rq, exp, hits))
+				} else {
+					*nInc++
+					r.Inconclusive(fmt.Sprintf("adapter layer (protocol %d): %s: expected text not observed at the client", pv, rq.label))
+				}
 			}
 		}
 	}
@@ -487,15 +568,49 @@ func adapterScenario(r *lib.Run, pv proto.Protocol, salt int, nReq, nPos, nInc *
 		}
 	}
 	// KickPlayerRaw: bob is kicked with a JSON reason
-	if send(request{label: "KickPlayerRaw bob", data: utf("KickPlayerRaw", "bob", `{"text":"`+tok("kickraw")+`"}`)}) {
+	if send(request{label: kickRawLabel, data: utf("KickPlayerRaw", "bob", kickRawReason)}) {
 		bob := players[1]
-		_, err := bob.c.WaitFor(func(rec *e2e.Rec) bool { return bytes.Contains(rec.Payload, []byte(tok("kickraw"))) }, 5*time.Second)
+		longClass := ""
+		if len(kickRawReason) >= 32768 {
+			longClass = ":utf-field-of-32768-bytes-or-more"
+			r.Count("adapter_text_requests_with_a_string_of_32768_bytes_or_more:KickPlayerRaw", 1)
+		}
+		// a marker query behind it: once it is answered the kick has been carried out (or not)
+		mk := len(alice.bc.Log())
+		send(request{label: "marker", data: utf("UUIDOther", "Alice")})
+		_, merr := alice.bc.WaitFor(func(rec *e2e.Rec) bool {
+			_, data, ok := rawPluginMessage(rec)
+			return ok && rec.Seq >= mk && bytes.HasPrefix(data, utf("UUIDOther"))
+		}, e2e.Watchdog)
+		_, err := bob.c.WaitFor(func(rec *e2e.Rec) bool { return bytes.Contains(rec.Payload, []byte(tok("kickraw"))) }, 2*time.Second)
 		if err == nil {
 			*nPos++
 			r.Distinct(fmt.Sprintf("adapter|%d|KickPlayerRaw|kicked", pv))
+			if longClass != "" {
+				r.Count("adapter_long_texts_observed_at_the_named_players_client", 1)
+			}
 		} else {
-			*nInc++
-			r.Inconclusive(fmt.Sprintf("adapter layer (protocol %d): KickPlayerRaw bob: reason not observed at bob's client", pv))
+			// not kicked? then bob's client path still works: a keep-alive from his CURRENT backend
+			// (lobby, after ConnectOther) goes through and nothing with the token is in his log
+			stillThere := false
+			if merr == nil {
+				for _, bc := range backends["lobby"].Conns() {
+					if loginSeen(bc) && bc.Login != nil && bc.Login.Username == "bob" && !bc.Conn.PeerClosed() {
+						id := int64(778001)
+						if bc.Send(&packet.KeepAlive{RandomID: id}) == nil {
+							_, e := bc.WaitFor(func(rec *e2e.Rec) bool { ka, ok := rec.Packet.(*packet.KeepAlive); return ok && ka.RandomID == id }, 2*time.Second)
+							stillThere = stillThere || e == nil
+						}
+					}
+				}
+			}
+			if stillThere {
+				r.Violation("adapter:KickPlayerRaw:named-player-not-kicked"+longClass, kickRawLabel+": the marker query behind the request was answered and a later keep-alive went through bob's client connection, but he was not kicked",
+					adapterWitness{Protocol: int(pv), State: st, Request: kickRawLabel})
+			} else {
+				*nInc++
+				r.Inconclusive(fmt.Sprintf("adapter layer (protocol %d): KickPlayerRaw bob: reason not observed at bob's client", pv))
+			}
 		}
 		for _, p := range []*pl{players[0], players[2]} {
 			for _, rec := range p.c.Log() {
